@@ -255,8 +255,8 @@ impl PeerHandler {
             tokio::select! {
                 _ = keep_alive_timer.tick() => self.timeout_keep_alive().await?,
                 _ = sync_stats_timer.tick() => self.timeout_sync_stats().await?,
-                Ok(cmd) = self.broad_ch.recv() => {
-                    if self.handle_manager_cmd(cmd).await? == false {
+                cmd = Self::recv_manager_cmd(&mut self.broad_ch) => {
+                    if self.handle_manager_cmd(cmd?).await? == false {
                         break;
                     }
                 },
@@ -269,6 +269,18 @@ impl PeerHandler {
         }
 
         Ok(())
+    }
+
+    async fn recv_manager_cmd(
+        broad_ch: &mut broadcast::Receiver<BroadCmd>,
+    ) -> Result<BroadCmd, Error> {
+        match broad_ch.recv().await {
+            Ok(cmd) => Ok(cmd),
+            // Some commands (Have announcements, choke state) were overwritten before this task
+            // read them, peer can't be kept in sync anymore
+            Err(broadcast::error::RecvError::Lagged(_)) => Err(Error::ManagerCmdLost),
+            Err(broadcast::error::RecvError::Closed) => std::future::pending().await,
+        }
     }
 
     fn start_keep_alive_timer(&self) -> Interval {
